@@ -28,11 +28,13 @@ def ccName (ge : C → C → Bool) (cname : P → C → P) (p : P) (act : Action
   | .conflict .bothChanged, some xa, some yb => some (cname p (loser ge xa yb))
   | _, _, _ => none
 
-/-- the live sources an action copies from exist -/
+/-- the live sources an action copies from exist, and a delete finds the other side still without the path -/
 def srcOK (act : Action) (x y : Option C) : Prop :=
   match act with
   | .propagateAtoB => x.isSome
   | .propagateBtoA => y.isSome
+  | .deleteA => y = none
+  | .deleteB => x = none
   | _ => True
 
 theorem apply_local (ge : C → C → Bool) (cname : P → C → P) (a b : List (P × Fp C)) (l : Live P C) (p : P)
@@ -65,11 +67,19 @@ theorem apply_local (ge : C → C → Bool) (cname : P → C → P) (a b : List 
     intro q hq _
     exact ⟨by simp [get_ins, hq], rfl⟩
   | deleteA =>
-    refine ⟨_, false, rfl, ?_, by simp [resolve, get_del], by simpa [resolve] using hy, by intros; simp_all⟩
+    have hyn : y = none := hs
+    have happ : apply ge cname a b l p .deleteA =
+        some ({ l with A := del l.A p, common := cDel l.common p }, false) := by
+      simp [apply, hy, hyn]
+    refine ⟨_, false, happ, ?_, by simp [resolve, get_del], by simpa [resolve] using hy, by intros; simp_all⟩
     intro q hq _
     exact ⟨by simp [get_del, hq], rfl⟩
   | deleteB =>
-    refine ⟨_, false, rfl, ?_, by simpa [resolve] using hx, by simp [resolve, get_del], by intros; simp_all⟩
+    have hxn : x = none := hs
+    have happ : apply ge cname a b l p .deleteB =
+        some ({ l with B := del l.B p, common := cDel l.common p }, false) := by
+      simp [apply, hx, hxn]
+    refine ⟨_, false, happ, ?_, by simpa [resolve] using hx, by simp [resolve, get_del], by intros; simp_all⟩
     intro q hq _
     exact ⟨rfl, by simp [get_del, hq]⟩
   | conflict k =>
